@@ -38,7 +38,7 @@ echo "unexpected failing packages:$bad"
 if [ -n "$bad" ]; then
   echo "== rerun failing packages once (flake check)"
   still=""
-  for pk in $bad; do go test -vet=off -count=1 ./$pk >/dev/null 2>&1 || still="$still $pk"; done
+  for pk in $bad; do go test -vet=off -count=1 ./$pk >/dev/null 2>&1 || go test -vet=off -count=1 ./$pk >/dev/null 2>&1 || still="$still $pk"; done
   echo "still failing:$still"; bad=$still
 fi
 cd /; git -C /repo worktree remove --force $wt
